@@ -10,7 +10,7 @@ META = {
     "same relative order, for every universe, date, flag combination and prior temp. Headline clauses proved separately: never a ticker outside the universe, by default never a missing/zero/negative "
     "current price; SelectN: every kept item is at least as good as every dropped candidate, ordered by the statistic, count = n or int(n*candidates) (none if all_or_none and too few); SetStat/StatTotalReturn: "
     "row at now-lag / total return over exactly [now-lag-lookback, now-lag]. The pandas operators the algebra assumes are audited exhaustively on all 125 rows of 3 tickers over {NaN,-1,0,1,2} "
-    "against the real algos, which also covers SelectRandomly, ResolveOnTheRun and SelectMomentum (bounded, not proved).",
+    "against the real algos, which also covers ResolveOnTheRun and SelectMomentum (bounded, not proved). SelectRandomly is proved to draw from the tradable candidates only (prior selection or universe columns; priced and, unless include_negative, positive on the current row) and to keep every candidate when no n is given; the size and uniformity of the draw are random.sample's (A-EXT).",
 }
 MANIFEST_ENTRY = {
     "level_text": "Deductive proof (for all universes, dates, parameters and prior temp contents) that ten selection/statistic algos leave exactly the documented collection, modulo the stated pandas operator "
@@ -23,6 +23,7 @@ MANIFEST_ENTRY = {
 
 def tasks(tier, seed):
     ts = [func("bt.algos.%s.__call__" % c) for c in SELECTORS]
+    ts += [func("bt.algos.SelectRandomly.__call__", variant="with-n"), func("bt.algos.SelectRandomly.__call__", variant="no-n")]
     ts.append(dict(kind="custom", module="props.bounded", fn="run_script", script="c14_select", seed=seed, n=1, props=["C14"]))
     return ts
 
